@@ -16,7 +16,7 @@ pub fn def() -> CheckDef {
         meta: CheckMeta {
             id: "C09",
             level: "exploration",
-            rule: "scenarios of 2-3 writer threads, each doing 1-2 read-modify-write increments of a counter key (plus a bulk value; in half of the scenarios the file is a fresh 4-page file, so the first commits have to grow it: resize takes the map lock exclusively; the other half is pre-sized and never resizes) with 1-2 reader threads; in half of the scenarios writer 0 first abandons (rolls back) a write transaction; every thread holds at most one transaction. In a quarter of the scenarios (all with file growth) every lock acquisition inside jammdb is a scheduling point of its own, so a thread can be preempted between two short critical sections. Schedules as in C04: all schedules with <= p preemptions by depth-first re-execution (p = 2 quick, 3 thorough, capped), then seeded random / PCT schedules. Oracles: (1) a flag set after tx(true) returns and cleared before commit is never found set (mutual exclusion); (2) the counter read inside each committed transaction is unique and the final counter equals the number of successful commits (no lost update); a reader never sees a counter below the number of commits that had returned before it began; (3) a reader never reports itself blocked on a lock while every other thread is parked outside jammdb (a reader blocked by an idle, uncommitted open writer); a committing writer waiting for open readers before it grows the file, and writers waiting for each other, are legitimate; (4) after all threads have finished DB::check() passes; (5) no state in which every live thread is blocked, every execution ends within the step bound, and no thread stays blocked when the controller lets everything run free. Non-trivial = schedule with >= 1 preemption in which a writer had to wait for the writer lock or a thread had to wait for the map lock during a resize. Distinct = hash of the choice sequence (per scenario).",
+            rule: "scenarios of 2-3 writer threads, each doing 1-2 read-modify-write increments of a counter key (plus a bulk value; in half of the scenarios the file is a fresh 4-page file, so the first commits have to grow it: resize takes the map lock exclusively; the other half is pre-sized and never resizes) with 1-2 reader threads; in half of the scenarios writer 0 first abandons (rolls back) a write transaction; in two scenarios the database starts with a free list of several pages (a 300-page bucket written and deleted); every thread holds at most one transaction. In a quarter of the scenarios (all with file growth) every lock acquisition inside jammdb is a scheduling point of its own, so a thread can be preempted between two short critical sections. Schedules as in C04: all schedules with <= p preemptions by depth-first re-execution (p = 2 quick, 3 thorough, capped), then seeded random / PCT schedules. Oracles: (1) a flag set after tx(true) returns and cleared before commit is never found set (mutual exclusion); (2) the counter read inside each committed transaction is unique and the final counter equals the number of successful commits (no lost update); a reader never sees a counter below the number of commits that had returned before it began; (3) a reader never reports itself blocked on a lock while every other thread is parked outside jammdb (a reader blocked by an idle, uncommitted open writer); a committing writer waiting for open readers before it grows the file, and writers waiting for each other, are legitimate; (4) after all threads have finished DB::check() passes; (5) no state in which every live thread is blocked, every execution ends within the step bound, and no thread stays blocked when the controller lets everything run free. Non-trivial = schedule with >= 1 preemption in which a writer had to wait for the writer lock or a thread had to wait for the map lock during a resize. Distinct = hash of the choice sequence (per scenario).",
             assumptions: &[
                 "liveness is checked as: no reachable all-blocked state, termination within a step bound under every explored schedule; fairness is not modelled",
                 "the controller explores a superset of the schedules std's RwLock (writer-preferring) allows, which is sound for these safety oracles",
@@ -153,14 +153,33 @@ fn build(sc: &Scenario, db: &DB, sh: Arc<Shared>) -> Vec<ThreadFn> {
     ts
 }
 
-pub fn prepare_template(path: &Path, presized: bool) -> Result<(), Failure> {
+pub fn prepare_template(path: &Path, presized: bool, bigfree: bool) -> Result<(), Failure> {
     let _ = std::fs::remove_file(path);
     // growth scenarios start from a fresh 4-page file: the first commit has to extend it
     // (8 MiB step, exclusive map lock); pre-sized scenarios never resize and are much cheaper
-    let np = if presized { 256 } else { 4 };
-    catch(|| OpenOptions::new().pagesize(1024).num_pages(np).open(path).map(|_| ()))
-        .map_err(Failure::from_panic)?
-        .map_err(|e| Failure::new("harness_panic", format!("template: {}", e)))
+    // (with the junk bucket the file is pre-sized generously, so that the template stays small and never grows)
+    let np = if bigfree { 800 } else if presized { 256 } else { 4 };
+    catch(|| -> Result<(), String> {
+        let db = OpenOptions::new().pagesize(1024).num_pages(np).open(path).map_err(|e| e.to_string())?;
+        if bigfree {
+            // a bucket of 300 page-sized values is written and deleted: every writer of the
+            // scenario then works with (and publishes) a free list of several pages
+            let tx = db.tx(true).map_err(|e| e.to_string())?;
+            {
+                let b = tx.create_bucket("junk").map_err(|e| e.to_string())?;
+                for i in 0..300u32 {
+                    b.put(format!("j{:04}", i), vec![b'j'; 900]).map_err(|e| e.to_string())?;
+                }
+            }
+            tx.commit().map_err(|e| e.to_string())?;
+            let tx = db.tx(true).map_err(|e| e.to_string())?;
+            tx.delete_bucket("junk").map_err(|e| e.to_string())?;
+            tx.commit().map_err(|e| e.to_string())?;
+        }
+        Ok(())
+    })
+    .map_err(Failure::from_panic)?
+    .map_err(|e| Failure::new("harness_panic", format!("template: {}", e)))
 }
 
 pub fn run_once(sc: &Scenario, template: &Path, work: &Path, plan: &[usize], strategy: Strategy) -> Result<RunOut, Failure> {
@@ -232,9 +251,9 @@ fn shard(ctx: &ShardCtx, known: &Known) -> ShardOut {
     // pattern: bit 0 = third writer, /2%3 = bulk size
     // holds >= 8 marks a pre-sized (no growth) scenario
     let presized = ctx.shard % 2 == 1;
-    let sc = Scenario { readers: 1 + (ctx.shard / 4) % 2, commits: 1 + (ctx.shard / 8) % 2, pattern: ((ctx.shard / 2) % 6) as u8, holds: (if presized { 9 } else { 1 }) + if (ctx.shard / 2) % 2 == 1 { 4 } else { 0 }, grow: false, lock_yield: ctx.shard % 4 == 0 || ctx.shard % 8 == 3 };
+    let sc = Scenario { readers: 1 + (ctx.shard / 4) % 2, commits: 1 + (ctx.shard / 8) % 2, pattern: ((ctx.shard / 2) % 6) as u8, holds: (if presized { 9 } else { 1 }) + if (ctx.shard / 2) % 2 == 1 { 4 } else { 0 }, grow: ctx.shard % 8 == 5, lock_yield: ctx.shard % 4 == 0 || ctx.shard % 8 == 3 };
     let template = ctx.db_path("c09.template.db");
-    if let Err(f) = prepare_template(&template, presized) {
+    if let Err(f) = prepare_template(&template, presized, sc.grow) {
         out.inconclusive.push(f.line());
         return out;
     }
@@ -295,7 +314,7 @@ pub fn replay(fr: &FailRec, dir: &std::path::Path) -> Option<Failure> {
         Err(e) => return Some(Failure::new("harness_panic", format!("bad C09 case: {}", e))),
     };
     let template = dir.join("c09.template.db");
-    if let Err(f) = prepare_template(&template, case.scenario.holds >= 8) {
+    if let Err(f) = prepare_template(&template, case.scenario.holds >= 8, case.scenario.grow) {
         return Some(f);
     }
     let strat = match case.strategy {
